@@ -10,8 +10,10 @@ python3 - <<'PY'
 import sys, os
 sys.path.insert(0, os.path.join(os.getcwd(), "lib"))
 import vcheck
-ok, out = vcheck.build_harness()
+ok, out, anchors = vcheck.build_harness()
 print("harness build:", "ok" if ok else out)
+if anchors:
+    print("injection points that no longer apply:", anchors)
 if ok:
     print("facts:", vcheck.regen_facts()[:2])
 PY
